@@ -638,6 +638,6 @@ func init() {
 			"the race detector is happens-before based: for barrier-released, otherwise unsynchronised bodies a conflicting pair is reported whenever both accesses execute",
 			"Funcode.lnt/lntOnce (position table decoded lazily under sync.Once) and Function.frozenAt (atomic freeze-epoch mark) are excluded from the snapshot; the race pass covers them; the fixture first lets one closure be frozen before its captured variable is assigned, so that every later re-Freeze of a shared closure happens in a later freeze epoch",
 		},
-		BudgetQuick: 75, BudgetThorough: 1200,
+		BudgetQuick: 240, BudgetThorough: 1200,
 	})
 }
